@@ -114,7 +114,7 @@ where
     }
 
     if let SymbolFilter::All = filter {
-        f(Symbol::Package(&ast.package));
+        f(Symbol::Package(&ast.package))?;
 
         for import in &ast.imports {
             f(Symbol::Import(import))?;
